@@ -35,19 +35,17 @@ PID = "C20"
 _ALWAYS_SAFE = "ABCDEFGHIJKLMNOPQRSTUVWXYZabcdefghijklmnopqrstuvwxyz0123456789_.-~"
 
 
-def _z3_tools():
-    import z3
-    from crosshair.libimpl.builtinslib import LazyIntSymbolicStr, SymbolicInt
-    from crosshair.statespace import context_statespace
-    from crosshair.tracers import NoTracing
+_TOOLS = None  # (z3, LazyIntSymbolicStr, SymbolicInt, context_statespace, NoTracing), set by _install_engine_shims
 
-    return z3, LazyIntSymbolicStr, SymbolicInt, context_statespace, NoTracing
+
+def _z3_tools():
+    # no import statements on the traced path: importlib's module locks go through weakref calls, which
+    # CrossHair intercepts with a gc.collect() each
+    return _TOOLS
 
 
 def _is_concrete_int(x) -> bool:
-    from crosshair.tracers import NoTracing
-
-    with NoTracing():
+    with _TOOLS[4]():
         return type(x) is int
 
 
@@ -82,9 +80,7 @@ def _model_quote(string, safe: str, plus: bool):
     for ch in string:
         o = ord(ch)
         if _is_concrete_int(o):
-            from crosshair.tracers import NoTracing
-
-            with NoTracing():
+            with _TOOLS[4]():
                 out.append(urllib.parse.quote_plus(chr(o), safe) if plus else urllib.parse.quote(chr(o), safe))
             continue
         ok = ((o >= 65) & (o <= 90)) | ((o >= 97) & (o <= 122)) | ((o >= 48) & (o <= 57)) \
@@ -198,8 +194,14 @@ def _install_engine_shims() -> bool:
         return False
     if getattr(ch_core, "_verif_c20_shims", False):
         return True
+    import z3
     from crosshair.core import realize, register_patch
+    from crosshair.libimpl.builtinslib import LazyIntSymbolicStr, SymbolicInt
+    from crosshair.statespace import context_statespace
     from crosshair.tracers import NoTracing
+
+    global _TOOLS
+    _TOOLS = (z3, LazyIntSymbolicStr, SymbolicInt, context_statespace, NoTracing)
 
     real_quote, real_quote_plus, real_unquote = urllib.parse.quote, urllib.parse.quote_plus, urllib.parse.unquote
 
